@@ -12,6 +12,9 @@ def EarlierPost (bs : List ColBox) (i : Nat) (sub : Option Resume) (kept : List 
     fragLinesList kept ++ linesFromKids bs m sub' = linesFromKids bs 0 sub ∧
     posKids bs 0 sub < posKids bs m sub'
 
+@[simp] theorem fragLines_cutEnd (f : CFrag) : fragLines f.cutEnd = fragLines f := by
+  cases f <;> simp [CFrag.cutEnd, fragLines]
+
 mutual
 theorem findEarlierGo_spec (inCol : Bool) : (fs : List CFrag) → ∀ (bs : List ColBox) (i : Nat) (sub : Option Resume),
     GoodList bs → FullFrom fs bs i sub →
@@ -92,7 +95,7 @@ theorem findEarlierGo_spec (inCol : Bool) : (fs : List CFrag) → ∀ (bs : List
               obtain ⟨rfl, rfl⟩ := h
               obtain ⟨hl, hp⟩ := hfe x' r hfeq
               refine ⟨0, some r, by rw [hxi]; rfl, by simp, ?_, ?_⟩
-              · simp only [fragLinesList, linesFromKids, List.append_nil]
+              · simp only [fragLinesList, linesFromKids, List.append_nil, fragLines_cutEnd]
                 rw [← List.append_assoc, hl]
               · simpa only [posKids] using hp
             · exact ⟨by simp, by simp⟩
